@@ -2,7 +2,7 @@
 from fractions import Fraction as F
 import itertools
 
-from .canon import spec_ballot, spec_profile
+from .canon import spec_ballot, spec_profile, fs as canon_fs
 
 NAMES = ["b", "A", "é x", "a10", "a9", "Zed", '"q"', "c,d", "10", "2", " z", "Ω", "a'b", "B", "AB", "1", "12"]
 PLAIN = ["A", "B", "C", "D", "E", "F", "G", "H"]
@@ -313,3 +313,38 @@ def score_profile(rnd, n=None, nb=None, L=None, k=None, approval=False, cs=None)
             sc[rnd.choice(cs)] = v
         bl.append(spec_ballot(r=None, w=weight(rnd, rnd.choice(["int", "rat"])), s=sc))
     return spec_profile(cs, bl)
+
+
+DRESS_P = 0.12
+
+
+def dress(rnd, spec, scores=True):
+    """The same votes in an unusual but valid shape: zero-weight ballots added (any ranking over the candidates, also a copy of
+    a real ballot), ids and voter sets attached, scores attached to ranked ballots (ranking rules ignore them).  None of this
+    changes any tally, so every reference model gives the same answers; the counters show how often it was produced."""
+    cs = list(spec["cands"])
+    bl = [dict(b) for b in spec["ballots"]]
+    what = rnd.sample(["zero", "ids", "scores"], rnd.randint(1, 3))
+    if "zero" in what and cs:
+        for _ in range(rnd.randint(1, 3)):
+            if bl and rnd.random() < 0.4:
+                z = dict(rnd.choice(bl))
+            else:
+                z = spec_ballot(r=[[c] for c in rnd.sample(cs, rnd.randint(1, len(cs)))], w=0)
+            z["w"] = "0"
+            bl.insert(rnd.randrange(len(bl) + 1), z)
+    if "ids" in what:
+        for i, b in enumerate(bl):
+            if rnd.random() < 0.7:
+                b["id"] = "voter-%d" % i
+            if rnd.random() < 0.5:
+                b["vs"] = sorted({"v%d" % i, "w%d" % rnd.randint(0, 3)})
+    if "scores" in what and scores and cs:
+        for b in bl:
+            if b.get("r") and b.get("s") is None and rnd.random() < 0.6:
+                # scores mostly for candidates the ballot ranks; one time in four for any candidate (a ballot that outlives its
+                # ranking through its scores is the known finding mixed-ballot-ranking-exhausted)
+                ranked = [c for g in b["r"] for c in g]
+                pool = cs if rnd.random() < 0.25 else ranked
+                b["s"] = {c: canon_fs(rnd.choice([1, 2, 5])) for c in rnd.sample(pool, rnd.randint(1, len(pool)))}
+    return {"cands": cs, "ballots": bl}
